@@ -3,13 +3,13 @@
 (* Layer P for C05: acceptance of an OpenPGP signature from the backend's  *)
 (* status keywords and exit status (pure operators).                       *)
 (***************************************************************************)
-EXTENDS Naturals, Sequences, FiniteSets
+EXTENDS Integers, Sequences, FiniteSets
 
 Trusts == <<"TRUST_UNDEFINED", "TRUST_NEVER", "TRUST_MARGINAL", "TRUST_FULLY", "TRUST_ULTIMATE">>
 TrustSet == {Trusts[k] : k \in DOMAIN Trusts}
 Vocabulary == {"NEWSIG", "GOODSIG", "BADSIG", "ERRSIG", "EXPSIG", "EXPKEYSIG", "REVKEYSIG", "VALIDSIG",
                "SIG_ID", "KEYEXPIRED", "KEYREVOKED", "NO_PUBKEY", "OTHER"} \cup TrustSet
-ExitCodes == {0, 1, 2}
+ExitCodes == {0, 1, 2, 255, -15}      \* incl. a backend killed by a signal (negative in Python)
 Accepting == {"TRUST_MARGINAL", "TRUST_FULLY", "TRUST_ULTIMATE"}
 
 Has(sq, w) == \E k \in DOMAIN sq : sq[k] = w
